@@ -238,9 +238,35 @@ func TestC14RandomLong(t *testing.T) {
 // Path equivalence: WriteColumn+Flush == EncodeColumn, WriteBlock == EncodeBlock,
 // with other content queued before and after.
 func TestC14ColumnPaths(t *testing.T) {
-	st := stats.G()
 	rapid.Check(t, func(rt *rapid.T) {
 		cols, rows := drawBlock(rt, 3)
+		checkPaths(rt, cols, rows)
+	})
+}
+
+// The same for LowCardinality columns whose dictionary crosses a key-width boundary (the
+// vectored path picks the key slice by width).
+func TestC14LargeDictionaryPaths(t *testing.T) {
+	sizes := []int{200, 254, 255, 256, 257, 300, 1000}
+	if stats.Thorough() {
+		sizes = append(sizes, 65535, 65536, 65537)
+	}
+	lcKinds := largeDictKinds()
+	rapid.Check(t, func(rt *rapid.T) {
+		k, rows, n := drawLargeDict(rt, lcKinds, sizes)
+		cols := []colSpec{{Name: "lc", Kind: k, Rows: rows}}
+		if rapid.Bool().Draw(rt, "second-column") {
+			k2 := gen.DrawKind(rt, "kind2")
+			cols = append(cols, colSpec{Name: "other", Kind: k2, Rows: gen.DrawRows(rt, k2, len(rows))})
+		}
+		checkPaths(rt, cols, len(rows))
+		stats.G().Label(fmt.Sprintf("lc-dict:%d", n))
+	})
+}
+
+func checkPaths(rt *rapid.T, cols []colSpec, rows int) {
+	st := stats.G()
+	{
 		rev := rapid.SampledFrom(blockRevs).Draw(rt, "rev")
 		pre := rapid.SliceOfN(rapid.Byte(), 0, 20).Draw(rt, "queued-before")
 		post := rapid.SliceOfN(rapid.Byte(), 0, 20).Draw(rt, "queued-after")
@@ -303,5 +329,5 @@ func TestC14ColumnPaths(t *testing.T) {
 		st.Case(hashCols(cols, rev, pre, post), rows > 0 && zc, func() any {
 			return map[string]any{"kind": "path-equivalence", "types": typeNames(cols), "rows": rows, "rev": rev, "sink_writes": s.calls}
 		})
-	})
+	}
 }
